@@ -418,3 +418,50 @@ func localBool(g *Gate, sub *Summary, i int) Ref {
 	}
 	return u.bdd.Restrict(h, base)
 }
+
+// collectsAll decides the lemma "acc is empty  =>  no element of coll satisfies P" for a slice acc
+// built by a filter loop:  var acc []T; for _, x := range coll { if C(x) { acc = append(acc, x) } }.
+// It holds when acc starts empty, every contribution is an append of the single current element
+// inside a complete range over coll without early exit, and P(x) (given as a function from the
+// element expression to a condition) implies the append's condition within the loop body.
+func collectsAll(g *Gate, s *Summary, acc *E, coll *E, P func(elem *E) Ref) bool {
+	u := g.U
+	var accV ssa.Value
+	for v, e := range s.Env {
+		if e == acc {
+			if _, isPhi := v.(*ssa.Phi); isPhi || accV == nil {
+				accV = v
+			}
+		}
+	}
+	if accV == nil {
+		return false
+	}
+	ems, bases := traceAppends(g, AV{s, accV})
+	if len(ems) == 0 || len(bases) != 0 {
+		return false
+	}
+	loops := loopsOf(s.Fn)
+	for _, em := range ems {
+		if em.Act != s || len(em.Elems) != 1 {
+			return false
+		}
+		el := em.Elems[0]
+		if el.Op != "index" || el.Args[0] != coll {
+			return false
+		}
+		l := innermostLoop(loops, em.Call.Block())
+		if l == nil {
+			return false
+		}
+		ro := rangedOver(l)
+		if ro == nil || !ro.Full || s.Env[ro.Coll] != coll || !onlyExhaustionExit(l) {
+			return false
+		}
+		body := u.bdd.And(s.RC[l.Header], contCond(u, s, l))
+		if !u.bdd.Implies(u.bdd.And(body, P(el)), em.RC) {
+			return false
+		}
+	}
+	return true
+}
